@@ -215,19 +215,14 @@ func c16Families(tier string) []explore.Family {
 			o = c16Render("{{ s | strip_html }}", b)
 			c.ok(o)
 		case "split_chars":
-			// split and join are inverse on separator-free, non-empty pieces
-			for _, sep := range []string{",", "a", "é", "+%"} {
+			// split and join are inverse on separator-free pieces
+			for _, sep := range []string{",", "a", "é", "+%", "aa", ",,", "a,a", "éé", "%%"} { // the last ones can overlap themselves: pieces are cut at the leftmost occurrences
 				pieces := strings.Split(s, sep)
 				if s == "" {
 					pieces = nil // the empty list of pieces joins to "", so "" splits into no pieces
 				}
-				good := true
-				for _, p := range pieces {
-					if p == "" {
-						good = false
-					}
-				}
-				if !good {
+				// (empty pieces at the end are dropped, as in Ruby; the law is claimed when the last piece is non-empty)
+				if len(pieces) > 0 && pieces[len(pieces)-1] == "" {
 					continue
 				}
 				r.Eval()
